@@ -22,6 +22,15 @@ static void gen_c07(Draw &d, Case &c) {
   for (int i = 0; i < n; i++) for (int j = 0; j < ny; j++) Y(i, j) += noise * sig * (ld)g[(size_t)i * ny + j] / 500;
   for (int j = 0; j < ny; j++) { double sc = d.pick<double>({1.0, 1.0, 1e4, 1e-4, 1e2}); bool cst = true; for (int i = 0; i < n; i++) { Y(i, j) = (double)(Y(i, j) * sc); if (Y(i, j) != Y(0, j)) cst = false; } if (cst) for (int i = 0; i < n; i++) Y(i, j) += (i % 2) ? 1 : -1; }
   for (auto &x : Y.a) x = (double)x;
+  // "arbitrary offsets": a third of the responses sit on a level of 1e2..1e6.5 times their own spread (a one-pass / expanded
+  // sum of squares loses (level/spread)^2 * eps there, the two-pass definition does not)
+  bool bigoff = false;
+  for (int j = 0; j < ny; j++) if (d.coin(33)) {
+    ld mu = 0, ss = 0; for (int i = 0; i < n; i++) mu += Y(i, j); mu /= n; for (int i = 0; i < n; i++) ss += (Y(i, j) - mu) * (Y(i, j) - mu);
+    double sd = (double)sqrtl(ss / n), off = (d.coin(50) ? 1 : -1) * sd * std::pow(10.0, d.real(2, 6.5));
+    for (int i = 0; i < n; i++) Y(i, j) = (double)(Y(i, j) + off);
+    bigoff = true;
+  }
   int nnew = (int)d.i(1, 5), nnew2 = (int)d.i(1, 9);
   M N(nnew, p), N2(nnew2, p);
   for (int i = 0; i < nnew; i++) for (int j = 0; j < p; j++) N(i, j) = (double)(X((int)d.i(0, n - 1), j) * (1 + d.dyadic(200, 8)));
@@ -34,6 +43,7 @@ static void gen_c07(Draw &d, Case &c) {
   put(c, X); put(c, Y); put(c, N); put(c, N2); c.v.push_back(cc); c.v.push_back(dd); put(c, Mx);
   c.nontrivial = p >= 2 && noise > 0 && ny >= 2;
   c.tags.push_back(fmt("ny=%d", ny)); c.tags.push_back(fmt("noise=%g", noise)); c.tags.push_back(fmt("p=%d", p));
+  if (bigoff) c.tags.push_back("response-level>=1e2*spread");
 }
 
 static MLRMODEL *fitmlr(const M &X, const M &Y) {
@@ -84,7 +94,10 @@ static void pred_c07(const Case &c) {
     VF_CHECK(fabsl(sumr) <= sqrtl((ld)n) * rt * 2 + 1e-300L, "training residuals of response %d sum to %.3Lg (tol %.3Lg)", k, sumr, sqrtl((ld)n) * rt * 2);
     for (int j = 0; j < p; j++) { ld s = 0, nx = 0; for (int i = 0; i < n; i++) { s += X(i, j) * r[i]; nx += X(i, j) * X(i, j); } VF_CHECK(fabsl(s) <= sqrtl(nx) * rt * 2 + 1e-300L, "residuals of response %d not orthogonal to predictor %d: %.3Lg (tol %.3Lg)", k, j, s, sqrtl(nx) * rt * 2); }
     ld r2ref = 1 - rss / tss;
-    VF_CLOSE(m->r2y_model->data[k], r2ref, 1e-9L + 64 * n * EPS * (1 + rss / tss), "r2y_model = 1 - RSS/TSS");
+    // a two-pass TSS carries the rounding of each y_i - mean: eps*|y| per term, i.e. eps*(level/spread) relative
+    ld ymax = 0; for (int i = 0; i < n; i++) ymax = std::max(ymax, fabsl(Y(i, k)));
+    ld lvl = tss > 0 ? ymax / sqrtl(tss / n) : 0;
+    VF_CLOSE(m->r2y_model->data[k], r2ref, 1e-9L + 64 * n * EPS * (1 + (1 + lvl) * rss / tss), "r2y_model = 1 - RSS/TSS");
     VF_CHECK(m->r2y_model->data[k] >= -1e-9 && m->r2y_model->data[k] <= 1 + 1e-9, "training R2 outside [0,1]: %.17g", m->r2y_model->data[k]);
     VF_CLOSE(m->sdec->data[k], sqrtl(rss / n), 64 * n * EPS * sqrtl(rss / n) + 1e-300L, "sdec = sqrt(RSS/n)");
     VF_CLOSE(m->ymean->data[k], mu, 64 * n * EPS * (fabsl(mu) + sqrtl(tss / n)) + 1e-300L, "ymean");
